@@ -408,7 +408,8 @@ namespace c07
   inline std::string with(const std::string& detail, const vh::J& more)
   { std::string m = more.str(); return detail.substr(0, detail.size() - 1) + (m.size() > 2 ? "," + m.substr(1) : "}"); }
 
-  inline void judge(vh::Ctx& c, const RunCtx& rc, const RunRec& rec)
+  // returns true if the run was classified as 'forced by min_iter past exact convergence' (class D7)
+  inline bool judge(vh::Ctx& c, const RunCtx& rc, const RunRec& rec)
   {
     const SolverInfo& si = *rc.info; const Sys& s = rc.p->s; const Settings& set = *rc.set; const Index n = s.n;
     const std::string op = std::string(si.name) + (rc.use_correct ? ".correct" : ".apply");
@@ -418,6 +419,7 @@ namespace c07
     { std::vector<std::string> t = rc.rtags; for(auto& x : more) if(!x.empty()) t.push_back(x); c.viol(op, kind, d, t); };
     Index effdim = 0; for(Index i = 0; i < n; ++i) if(!s.fixed[i]) ++effdim;
     const std::string st_tag = std::string("status:") + status_name(rec.st);
+    bool forced = false;
     const std::vector<double> zero(n, 0.0);
     const std::vector<double>& xs = rc.use_correct ? *rc.x0 : zero; // the start vector the run must have used
     c.count(std::string("status:") + status_name(rec.st));
@@ -441,11 +443,11 @@ namespace c07
       c.event();
       if(rec.st != Status::success || rec.iters != 0 || !bits_equal(rec.x, xs))
         V("zero-initial-defect-not-handled", det, {st_tag});
-      return;
+      return false;
     }
 
     // (3) status value is a final one
-    if(rec.st == Status::undefined || rec.st == Status::progress) { V("status-not-final", det, {st_tag, rec.d0 == 0.0 ? "def0:reported_zero" : (rec.d0 <= EPS * EPS ? "def0:below_eps2" : "")}); return; }
+    if(rec.st == Status::undefined || rec.st == Status::progress) { V("status-not-final", det, {st_tag, rec.d0 == 0.0 ? "def0:reported_zero" : (rec.d0 <= EPS * EPS ? "def0:below_eps2" : "")}); return false; }
 
     const bool early0 = rec.iters == 0; // stopped by _set_initial_defect (documented early-outs: def0 < tol_abs_low, def0 <= eps^2, non-finite)
     LD magx = 0; const LD dx = true_defect(s, rec.x, *rc.b, &magx);
@@ -474,8 +476,13 @@ namespace c07
           const LD use = (xfinite && dx > thr && slack > 0) ? (dx - thr) / slack : 0.0L;
           c.count(use == 0.0L ? "slack-used:none" : (use <= 1e-2L ? "slack-used<=1e-2" : (use <= 1e-1L ? "slack-used<=1e-1" : (use <= 1.0L ? "slack-used<=1" : "slack-used>1"))));
         }
-        if(!ok) V("success-but-true-residual-too-large", with(det, vh::J().kv("true_residual", dx).kv("true_initial_defect", d0).kv("slack", slack)),
-          {rec.iters > effdim ? "iters>dim" : ""});
+        // class D7: a reported defect had already dropped to rounding level (<= 1e-12 def0) at an iteration below min_iter, the
+        // solver was forced on and its recurrences broke down (0/0 or overflow) -- recorded under the D7 kind
+        for(std::size_t i = 0; i < rec.trace.size() && Index(i) < set.min_iter; ++i) if(rec.trace[i] <= 1e-12 * rec.d0) forced = true;
+        if(!ok) V(forced ? "breakdown-after-exact-convergence" : "success-but-true-residual-too-large",
+          with(det, vh::J().kv("true_residual", dx).kv("true_initial_defect", d0).kv("slack", slack)),
+          {rec.iters > effdim ? "iters>dim" : "", forced ? "min_iter:forces_past_convergence" : ""});
+        forced = forced && !ok;
         // "half-step-stop": the final (intermediate) defect was not published through the monitor
         if(!early0 && rec.iters < set.min_iter) V("num_iter<min_iter", det, {(si.half_step && rec.trace.size() == std::size_t(rec.iters)) ? "half-step-stop" : ""});
         break;
@@ -547,6 +554,7 @@ namespace c07
       }
       else c.count("trace:not-comparable");
     }
+    return forced;
   }
 
   // ------------------------------------------------------------------------------------------- preconditioner choice
@@ -648,7 +656,7 @@ namespace c07
       c.set_op(op);
 
       RunRec r1 = run_solver<TP_>(c, env, is, use_correct, x0, b, int(r.below(4)));
-      judge(c, rc, r1);
+      const bool forced = judge(c, rc, r1);
       const std::string det = run_detail(rc, r1);
 
       // repetition on the same object: apply with other garbage in x / correct with the same start vector
@@ -678,11 +686,15 @@ namespace c07
           for(std::size_t i = 0; i < r1.trace.size(); ++i) if(r1.trace[i] <= 1e-12 * r1.d0)
           { exact = true; if(Index(i) < set.min_iter) { vt.push_back("min_iter:forces_past_convergence"); break; } }
           if(r1.iters >= effdim || effdim <= 4 || si.inner_untested) { exact = true; vt.push_back("iters>=dim-or-dim<=4"); }
+          // BiCG-type methods carry no convergence guarantee: a truthful breakdown exit (status aborted through the solver's
+          // explicit breakdown path) after at least as many iterations as the effective dimension is accepted, only counted
+          if(si.breakdown_abort && r1.st == Status::aborted && std::isfinite(r1.dfin) && r1.iters >= effdim) c.count("conv:breakdown-abort-after>=dim-iterations-accepted");
+          else
           c.viol(op, (exact && r1.st == Status::aborted && !std::isfinite(r1.dfin)) ? "breakdown-after-exact-convergence" : "no-convergence", det, vt);
         }
       }
       // solution against the dense LU reference of the filtered system
-      if(r1.st == Status::success && n <= 60 && set.tol_rel >= 1e-10 && bscale != 0.0 && (r1.iters == 0 || set.min_iter < set.max_iter || set.min_stag_iter > 0))
+      if(!forced && r1.st == Status::success && n <= 60 && set.tol_rel >= 1e-10 && bscale != 0.0 && (r1.iters == 0 || set.min_iter < set.max_iter || set.min_stag_iter > 0))
       {
         DenseRef dr = dense_reference(s, use_correct ? x0 : zero, b, true);
         if(dr.ok)
